@@ -17,6 +17,7 @@ import (
 	"strconv"
 	"strings"
 	"sync"
+	"sync/atomic"
 	"time"
 
 	"google.golang.org/grpc"
@@ -143,6 +144,8 @@ type rpcRun struct {
 	sentByClient    []int32 // tags of messages the client sent with nil error
 	sentByHandler   []int32
 	nextTag         int32
+	bytesOffered    atomic.Int64 // payload bytes of client sends started
+	bytesTaken      atomic.Int64 // payload bytes the handler has received
 
 	actors    map[string]*actor
 	hStream   grpc.ServerStream
@@ -181,9 +184,13 @@ func (r *rpcRun) exec(a *actor, st Step) (stop bool) {
 	if st.Actor == "h2" {
 		key = "h/" + st.Op
 	}
+	if st.Actor == "cs2" {
+		key = "cs/" + st.Op
+	}
 	switch key {
 	case "cs/send":
 		tag = r.newTagLocked()
+		r.bytesOffered.Add(int64(st.Size))
 		err = r.cs.SendMsg(&pb.Message{Count: tag, Payload: fillBytes(st.Size, uint32(tag))})
 		if err == nil {
 			r.mu.Lock()
@@ -208,6 +215,9 @@ func (r *rpcRun) exec(a *actor, st Step) (stop bool) {
 		m := new(pb.Message)
 		err = r.hStream.RecvMsg(m)
 		tag = m.Count
+		if err == nil {
+			r.bytesTaken.Add(int64(len(m.Payload)))
+		}
 	case "h/send":
 		tag = r.newTagLocked()
 		err = r.hStream.SendMsg(&pb.Message{Count: tag, Payload: fillBytes(st.Size, uint32(tag))})
